@@ -455,6 +455,13 @@ def _model_pool(ctx: Ctx) -> Tuple[List[Tuple[str, Any, Any]], Any]:
     add("ns.E.1.0[<=2] over a structure {64}", mk("_array.VariableLengthArrayType", E2, 2), "VariableLengthArrayType", "ns.E.1.0[<=2]", {8, 72, 136})
     add("ns.E.1.0[2] over a union {32, 64}", mk("_array.FixedLengthArrayType", E1, 2), "FixedLengthArrayType", "ns.E.1.0[2]", {64, 96, 128})
     add("ns.E.1.0[2] over a structure {64}", mk("_array.FixedLengthArrayType", E2, 2), "FixedLengthArrayType", "ns.E.1.0[2]", {128})
+    # a service type that shares name and version with message types of the pool (as two root directories can give): it
+    # differs from them in kind; its own bit length set is not defined
+    def half(suffix: str, attrs: List[Any]) -> Any:
+        return mk("_composite.StructureType", name="ns.A." + suffix, version=_version(1, 0), attributes=list(attrs), deprecated=False, fixed_port_id=None, source_file_path=APath("/r2/ns/A.1.0.dsdl"), has_parent_service=True, doc="")
+
+    add("service ns.A.1.0", mk("_composite.ServiceType", half("Request", [fa]), half("Response", [fb]), None), "ServiceType", "ns.A.1.0", {"not defined for a service"})
+    add("service ns.A.1.0 (again)", mk("_composite.ServiceType", half("Request", [fa]), half("Response", [fb]), None), "ServiceType", "ns.A.1.0", {"not defined for a service"})
     # attributes: equal exactly when kind, type, name (and value, for constants) agree
     rat = ctx.cls("_expression._primitive.Rational")
 
